@@ -201,7 +201,9 @@ class Dataset(AbstractDataset, dict, OpMixin, GetSetDelAttrMixin):
         # shallow copy of the DimArray so that its axes attribute can be 
         # modified without affecting the original array
         val = copy.copy(val)  
-        val._axes = copy.deepcopy(val.axes)
+        # (a plain Axes: the array may have been built on the axes of a Dataset - axes=ds.axes -, and a
+        # copy of those would still push every change into that Dataset's variables)
+        val._axes = Axes([copy.deepcopy(ax) for ax in val.axes])
 
         # Check dimensions
         # make sure axes match those of the dataset (before modifying anything)
